@@ -46,6 +46,11 @@ type Slot struct {
 	ID     int
 	Name   string
 	Weight int
+	// QueueOK: operations with this label may be called by several goroutines
+	// at once (Write on a net.Conn: each call is atomic, callers are served one
+	// after the other); for every other label a second parked goroutine is a
+	// finding
+	QueueOK string
 	// driver-visible state, go:norace access only
 	cur   *gate
 	extra []*gate
@@ -62,6 +67,9 @@ func (s *Slot) publish(g *gate, label string, en Enabler, op int) {
 		// concurrent reads of one body, ...). Queue it so nobody is
 		// orphaned, and remember it: engines report it as a finding.
 		s.extra = append(s.extra, g)
+		if label == s.QueueOK && s.label == s.QueueOK {
+			return
+		}
 		s.sim.sanity = append(s.sim.sanity, "two goroutines parked at once on "+s.Name+" ("+s.label+" and "+label+")")
 		return
 	}
